@@ -421,10 +421,18 @@ func zzC10pPendingAtClose() {
 	ctx := context.Background()
 	var perr error
 	done := false
-	// (OpenUpstream and SendMetadata keep wireConnMu for the whole exchange; their interplay with
-	// Close is the subject of zzC08cCloseBounded)
+	which := vf.Choose("pending", 4)
 	go func() {
-		_, perr = conn.OpenDownstream(ctx, []*message.DownstreamFilter{{SourceNodeID: "n"}})
+		switch which {
+		case 0:
+			_, perr = conn.OpenDownstream(ctx, []*message.DownstreamFilter{{SourceNodeID: "n"}})
+		case 1:
+			_, perr = conn.OpenUpstream(ctx, "session")
+		case 2:
+			perr = conn.SendMetadata(ctx, &message.BaseTime{SessionID: "s", Name: "n"})
+		case 3:
+			_, perr = conn.SendCall(ctx, &UpstreamCall{DestinationNodeID: "d", Name: "n", Type: "t"})
+		}
 		done = true
 	}()
 	vf.Settle()
@@ -450,7 +458,6 @@ func zzC08cCloseBounded() {
 	b.handler = func(t *zzTr, m message.Message) bool { return true }
 	conn := zzConnect(b)
 	which := vf.Choose("pending", 3)
-	vf.Known("KF-C08-conn-close-waits-behind-inflight-request", which != 0)
 	pctx, pcancel := context.WithCancel(context.Background())
 	defer pcancel()
 	go func() {
@@ -1350,5 +1357,317 @@ func zzC08eUpstreamCloseBounded() {
 	merr := conn.SendMetadata(ctx, &message.BaseTime{SessionID: "session", Name: "after"})
 	vf.Assert("connection-serves-requests", merr == nil)
 	conn.Close(ctx)
+	vf.Reach("end")
+}
+
+// C20.i: policies through the public API on a virtual clock. An interval policy never holds
+// accepted data longer than one interval; 'none' transmits nothing until Flush or Close; 'immediate'
+// cuts every write on its own; a size policy cuts exactly when the buffered payload first exceeds
+// the threshold; no chunk is cut empty; State() never invents data.
+func zzC20iPoliciesWholeAPI() {
+	b := zzNewBroker()
+	zzServeStreams(b)
+	conn := zzConnect(b)
+	tr := b.last()
+	ctx := context.Background()
+	const iv = 2 * time.Second
+	policy := vf.Choose("policy", 5)
+	var opt UpstreamOption
+	switch policy {
+	case 0:
+		opt = WithUpstreamFlushPolicyIntervalOnly(iv)
+	case 1:
+		opt = WithUpstreamFlushPolicyIntervalOrBufferSize(iv, 3)
+	case 2:
+		opt = WithUpstreamFlushPolicyBufferSizeOnly(3)
+	case 3:
+		opt = WithUpstreamFlushPolicyImmediately()
+	default:
+		opt = WithUpstreamFlushPolicyNone()
+	}
+	up, err := conn.OpenUpstream(ctx, "session", opt)
+	vf.Assume(err == nil)
+	vf.Settle()
+	// first write at an arbitrary moment inside an interval: two payload bytes (below the threshold 3)
+	off := time.Duration(vf.Choose("offset.quarters", 4)) * iv / 4 // (quarters, so that a native replay is not within timing slack of a tick)
+	vf.Advance(off)
+	id := &message.DataID{Name: "n", Type: "t"}
+	vf.Assert("write-accepted", up.WriteDataPoints(ctx, id, &message.DataPoint{ElapsedTime: 1, Payload: []byte{1, 2}}) == nil)
+	vf.Settle()
+	st := up.State()
+	sent := len(zzUpstreamChunksOf(tr))
+	switch policy {
+	case 3:
+		vf.Assert("immediate-cuts-every-write", sent == 1 && zzBufferedPoints(st) == 0)
+	default:
+		vf.Assert("nothing-cut-below-threshold-before-the-tick", sent == 0 && zzBufferedPoints(st) == 1)
+	}
+	vf.Assert("state-never-invents-data", int(st.TotalDataPoints)+zzBufferedPoints(st) == 1)
+	// one interval later
+	vf.Advance(iv)
+	sent = len(zzUpstreamChunksOf(tr))
+	switch policy {
+	case 0, 1:
+		vf.Assert("interval-policy-holds-data-at-most-one-interval", sent == 1)
+	case 2, 4:
+		vf.Assert("no-interval-no-cut", sent == 0)
+	}
+	// second write: two more bytes (4 > 3 with the first one still buffered)
+	vf.Assert("write-accepted", up.WriteDataPoints(ctx, id, &message.DataPoint{ElapsedTime: 2, Payload: []byte{3, 4}}) == nil)
+	vf.Settle()
+	chunks := zzUpstreamChunksOf(tr)
+	switch policy {
+	case 0:
+		vf.Assert("interval-only-ignores-size", len(chunks) == 1)
+	case 1:
+		vf.Assert("buffer-was-emptied-by-the-tick-so-below-threshold", len(chunks) == 1)
+	case 2:
+		vf.Assert("size-policy-cuts-when-threshold-first-exceeded", len(chunks) == 1 && zzPointCount(chunks[0]) == 2)
+	case 3:
+		vf.Assert("immediate-cuts-every-write", len(chunks) == 2)
+	case 4:
+		vf.Assert("none-transmits-nothing-until-flush", len(chunks) == 0)
+	}
+	vf.Assert("flush-ok", up.Flush(ctx) == nil)
+	vf.Settle()
+	chunks = zzUpstreamChunksOf(tr)
+	total := 0
+	for i, c := range chunks {
+		vf.Assert("no-empty-chunk", zzPointCount(c) > 0)
+		vf.Assert("numbered-from-one", c.StreamChunk.SequenceNumber == uint32(i+1))
+		total += zzPointCount(c)
+	}
+	st = up.State()
+	vf.Assert("after-flush-everything-cut", total == 2 && zzBufferedPoints(st) == 0 && st.TotalDataPoints == 2 && int(st.LastIssuedSequenceNumber) == len(chunks))
+	// an idle interval cuts nothing
+	vf.Advance(2 * iv)
+	vf.Assert("idle-ticks-cut-nothing", len(zzUpstreamChunksOf(tr)) == len(chunks))
+	conn.Close(ctx)
+	vf.Reach("end")
+}
+
+func zzBufferedPoints(st *UpstreamState) int {
+	n := 0
+	for _, g := range st.DataPointsBuffer {
+		n += len(g.DataPoints)
+	}
+	return n
+}
+
+func zzPointCount(c *message.UpstreamChunk) int {
+	n := 0
+	for _, g := range c.StreamChunk.DataPointGroups {
+		n += len(g.DataPoints)
+	}
+	return n
+}
+
+type zzAckLog struct{ got []UpstreamChunkResult }
+
+func (l *zzAckLog) HookAfter(_ uuid.UUID, r UpstreamChunkResult) { l.got = append(l.got, r) }
+
+// C07.d: two reliable upstreams on one connection. Acks are delivered to the stream they address
+// only; closing one stream (successfully, or with the broker refusing the close) leaves the other
+// stream's unacknowledged chunk stored, its later ack delivered once, its numbering, alias and close
+// totals intact.
+func zzC07dTwoUpstreams() {
+	b := zzNewBroker()
+	zzServeStreams(b)
+	serve := b.handler
+	opened := 0
+	closeRefused := vf.Choose("close.of.stream1.refused", 2) == 1
+	b.handler = func(t *zzTr, m message.Message) bool {
+		switch r := m.(type) {
+		case *message.UpstreamOpenRequest:
+			opened++
+			id := zzStreamID1
+			if opened == 2 {
+				id = zzStreamID2
+			}
+			t.in <- zzEncode(&message.UpstreamOpenResponse{RequestID: r.RequestID, AssignedStreamID: id, AssignedStreamIDAlias: uint32(10 * opened), ResultCode: message.ResultCodeSucceeded})
+			return true
+		case *message.UpstreamCloseRequest:
+			if closeRefused && r.StreamID == zzStreamID1 {
+				t.in <- zzEncode(&message.UpstreamCloseResponse{RequestID: r.RequestID, ResultCode: message.ResultCodeUnspecifiedError})
+				return true
+			}
+		}
+		return serve(t, m)
+	}
+	conn := zzConnect(b)
+	tr := b.last()
+	ctx := context.Background()
+	log1, log2 := &zzAckLog{}, &zzAckLog{}
+	up1, err := conn.OpenUpstream(ctx, "s1", WithUpstreamFlushPolicyNone(), WithUpstreamQoS(message.QoSReliable), WithUpstreamReceiveAckHooker(log1), WithUpstreamCloseTimeout(time.Second))
+	vf.Assume(err == nil)
+	up2, err := conn.OpenUpstream(ctx, "s2", WithUpstreamFlushPolicyNone(), WithUpstreamQoS(message.QoSReliable), WithUpstreamReceiveAckHooker(log2), WithUpstreamCloseTimeout(time.Second))
+	vf.Assume(err == nil)
+	vf.Settle()
+	vf.Assert("distinct-streams", up1.ID == zzStreamID1 && up2.ID == zzStreamID2)
+	p1, p2 := vf.U8("payload1"), vf.U8("payload2")
+	id := &message.DataID{Name: "n", Type: "t"}
+	vf.Assume(up1.WriteDataPoints(ctx, id, &message.DataPoint{ElapsedTime: 1, Payload: []byte{p1}}) == nil && up1.Flush(ctx) == nil)
+	vf.Assume(up2.WriteDataPoints(ctx, id, &message.DataPoint{ElapsedTime: 1, Payload: []byte{p2}}) == nil && up2.Flush(ctx) == nil)
+	vf.Settle()
+	chunks := zzUpstreamChunksOf(tr)
+	vf.Assert("each-stream-sends-under-its-own-alias", len(chunks) == 2 && chunks[0].StreamIDAlias == 10 && chunks[1].StreamIDAlias == 20 &&
+		chunks[0].StreamChunk.SequenceNumber == 1 && chunks[1].StreamChunk.SequenceNumber == 1)
+	// the broker acknowledges stream 1 only
+	tr.push(&message.UpstreamChunkAck{StreamIDAlias: 10, Results: []*message.UpstreamChunkResult{{SequenceNumber: 1, ResultCode: message.ResultCodeSucceeded, ResultString: "one"}}})
+	vf.Settle()
+	vf.Assert("ack-reaches-its-stream-only", len(log1.got) == 1 && log1.got[0].SequenceNumber == 1 && log1.got[0].ResultString == "one" && len(log2.got) == 0)
+	st2, _ := conn.sentStorage.List(ctx, up2.ID)
+	vf.Assert("other-streams-unacked-chunk-still-stored", len(st2) == 1)
+	// stream 1 is closed
+	cerr := up1.Close(ctx)
+	vf.Settle()
+	vf.Assert("close-result-as-answered", (cerr == nil) == !closeRefused)
+	st2, _ = conn.sentStorage.List(ctx, up2.ID)
+	vf.Assert("closing-stream1-leaves-stream2s-store", len(st2) == 1 && len(st2[1]) == 1)
+	// a late ack for the closed stream's alias reaches nobody; stream 2's ack reaches stream 2 once
+	tr.push(&message.UpstreamChunkAck{StreamIDAlias: 10, Results: []*message.UpstreamChunkResult{{SequenceNumber: 1, ResultCode: message.ResultCodeSucceeded, ResultString: "late"}}})
+	tr.push(&message.UpstreamChunkAck{StreamIDAlias: 20, Results: []*message.UpstreamChunkResult{{SequenceNumber: 1, ResultCode: message.ResultCodeSucceeded, ResultString: "two"}}})
+	vf.Settle()
+	vf.Assert("stream2-gets-its-ack-once", len(log2.got) == 1 && log2.got[0].ResultString == "two" && len(log1.got) == 1)
+	st2, _ = conn.sentStorage.List(ctx, up2.ID)
+	vf.Assert("acked-chunk-removed-from-its-own-store", len(st2) == 0)
+	// stream 2 keeps working: numbering, alias, totals
+	vf.Assert("stream2-still-writes", up2.WriteDataPoints(ctx, id, &message.DataPoint{ElapsedTime: 2, Payload: []byte{p1}}) == nil && up2.Flush(ctx) == nil)
+	vf.Settle()
+	chunks = zzUpstreamChunksOf(tr)
+	vf.Assert("stream2-continues-its-own-numbering", len(chunks) == 3 && chunks[2].StreamIDAlias == 20 && chunks[2].StreamChunk.SequenceNumber == 2)
+	tr.push(&message.UpstreamChunkAck{StreamIDAlias: 20, Results: []*message.UpstreamChunkResult{{SequenceNumber: 2, ResultCode: message.ResultCodeSucceeded}}})
+	vf.Settle()
+	vf.Assert("stream2-close-ok", up2.Close(ctx) == nil)
+	vf.Settle()
+	var close2 *message.UpstreamCloseRequest
+	for _, m := range tr.msgs() {
+		if r, ok := m.(*message.UpstreamCloseRequest); ok && r.StreamID == zzStreamID2 {
+			close2 = r
+		}
+	}
+	vf.Assert("stream2-close-totals-are-its-own", close2 != nil && close2.TotalDataPoints == 2 && close2.FinalSequenceNumber == 2)
+	conn.Close(ctx)
+	vf.Reach("end")
+}
+
+// C08.f: every blocking public call returns by its context deadline when the broker goes silent
+// (it keeps answering pings, so keepalive does not intervene), and the connection's dispatching
+// keeps running: a later request that the broker does answer still works.
+func zzC08fCallsBoundedByContext() {
+	b := zzNewBroker()
+	zzServeStreams(b)
+	serve := b.handler
+	silent := false
+	b.handler = func(t *zzTr, m message.Message) bool {
+		if silent {
+			return true
+		}
+		return serve(t, m)
+	}
+	conn := zzConnect(b)
+	ctx := context.Background()
+	up, err := conn.OpenUpstream(ctx, "session", WithUpstreamFlushPolicyNone(), WithUpstreamCloseTimeout(time.Second))
+	vf.Assume(err == nil)
+	down, err := conn.OpenDownstream(ctx, []*message.DownstreamFilter{{SourceNodeID: "node"}})
+	vf.Assume(err == nil)
+	vf.Settle()
+	silent = true
+	dctx, cancel := context.WithTimeout(ctx, time.Second)
+	defer cancel()
+	var cerr error
+	done := false
+	op := vf.Choose("call", 11)
+	go func() {
+		switch op {
+		case 0:
+			_, cerr = down.ReadDataPoints(dctx)
+		case 1:
+			_, cerr = down.ReadMetadata(dctx)
+		case 2:
+			_, cerr = conn.ReceiveCall(dctx)
+		case 3:
+			_, cerr = conn.ReceiveReplyCall(dctx)
+		case 4:
+			_, cerr = conn.OpenUpstream(dctx, "s2")
+		case 5:
+			_, cerr = conn.OpenDownstream(dctx, []*message.DownstreamFilter{{SourceNodeID: "n2"}})
+		case 6:
+			cerr = conn.SendMetadata(dctx, &message.BaseTime{SessionID: "s", Name: "n"})
+		case 7:
+			_, cerr = conn.SendCall(dctx, &UpstreamCall{DestinationNodeID: "d", Name: "n", Type: "t"})
+		case 8:
+			_, cerr = conn.SendCallAndWaitReplayCall(dctx, &UpstreamCall{DestinationNodeID: "d", Name: "n", Type: "t"})
+		case 9:
+			cerr = down.Close(dctx)
+		case 10:
+			cerr = up.Close(dctx)
+		}
+		done = true
+	}()
+	vf.Settle()
+	vf.Assert("blocks-while-the-broker-is-silent", !done)
+	vf.Advance(time.Second + 100*time.Millisecond)
+	vf.Assert("returns-by-its-context-deadline", done)
+	if !done {
+		return
+	}
+	vf.Assert("reports-an-error", cerr != nil)
+	vf.Assert("connection-not-given-up", b.dials == 1 && conn.state.Is(connStatusConnected))
+	// dispatching keeps running: the broker answers again
+	silent = false
+	merr := conn.SendMetadata(ctx, &message.BaseTime{SessionID: "session", Name: "after"})
+	vf.Assert("later-calls-still-work", merr == nil)
+	if op != 10 {
+		vf.Assert("other-stream-still-works", up.WriteDataPoints(ctx, &message.DataID{Name: "n", Type: "t"}, &message.DataPoint{ElapsedTime: 1}) == nil && up.Flush(ctx) == nil)
+	}
+	conn.Close(ctx)
+	vf.Reach("end")
+}
+
+// C08.g: no head-of-line blocking between callers: while one request waits (without a deadline) for
+// a broker that does not answer, a second caller's request still returns by its own deadline, and
+// Conn.Close by its.
+func zzC08gNoHeadOfLineBlocking() {
+	b := zzNewBroker()
+	b.handler = func(t *zzTr, m message.Message) bool { return true }
+	conn := zzConnect(b)
+	pctx, pcancel := context.WithCancel(context.Background())
+	defer pcancel()
+	call := func(k int, ctx context.Context) error {
+		var err error
+		switch k {
+		case 0:
+			_, err = conn.OpenUpstream(ctx, "session")
+		case 1:
+			_, err = conn.OpenDownstream(ctx, []*message.DownstreamFilter{{SourceNodeID: "n"}})
+		case 2:
+			err = conn.SendMetadata(ctx, &message.BaseTime{SessionID: "s", Name: "n"})
+		case 3:
+			_, err = conn.SendCall(ctx, &UpstreamCall{DestinationNodeID: "d", Name: "n", Type: "t"})
+		case 4:
+			_, err = conn.SendReplyCall(ctx, &UpstreamReplyCall{RequestCallID: "r", DestinationNodeID: "d"})
+		}
+		return err
+	}
+	first := vf.Choose("pending.call", 5)
+	second := vf.Choose("second.call", 5)
+	go call(first, pctx)
+	vf.Settle()
+	dctx, cancel := context.WithTimeout(context.Background(), time.Second)
+	defer cancel()
+	var serr error
+	done := false
+	go func() { serr = call(second, dctx); done = true }()
+	vf.Settle()
+	vf.Advance(time.Second + 100*time.Millisecond)
+	vf.Assert("second-caller-returns-by-its-own-deadline", done && serr != nil)
+	cctx, ccancel := context.WithTimeout(context.Background(), time.Second)
+	defer ccancel()
+	closed := false
+	go func() { conn.Close(cctx); closed = true }()
+	vf.Settle()
+	vf.Advance(time.Second + 100*time.Millisecond)
+	vf.Assert("close-returns-by-its-deadline", closed)
 	vf.Reach("end")
 }
